@@ -48,6 +48,7 @@ class NodeRun:
             rows = [[-2, []]]
         return {"served": sorted(w.balias(h) for h in cs.block_by_hash.keys()),
                 "head": w.balias(cs.current_chain_hash),
+                "tips": sorted(w.balias(h) for h in cs.heads.keys()),
                 "pool": [w.talias(indep.txid(t)) for t in n.pool()],
                 "rows": rows,
                 "buffer": [w.balias(h) for h in n.buffer_ids()],
